@@ -242,7 +242,16 @@ func wshsServe(ln net.Listener, p wshsPlan, done <-chan bool, out chan<- wshsSer
 		// orderly close of the sending side; the request was read completely, so the client sees EOF, not a reset
 		_ = conn.(*net.TCPConn).CloseWrite()
 	}
-	failed := <-done
+	// Watchdog: a client that is still waiting for bytes two seconds from now (e.g. a frame layer that lost part of
+	// what followed the blank line) is released by closing the connection; it then reports EOF.
+	var failed bool
+	select {
+	case failed = <-done:
+	case <-time.After(2 * time.Second):
+		_ = conn.Close()
+		<-done
+		return
+	}
 	// anything the client sent although nothing was asked for (e.g. frames of a previous session)
 	_ = conn.SetReadDeadline(time.Now().Add(5 * time.Millisecond))
 	buf := make([]byte, 4096)
